@@ -171,6 +171,9 @@ type runtimeEnv struct {
 	runStore *flyt.SharedStore
 	stores   []*flyt.SharedStore
 	onRunner func() // called on the goroutine that is about to call flyt.Run
+	// optional hooks bracketing every leaf exec callback (attempt k): the wait family measures real time with them,
+	// on the node objects themselves (no wrapper type around the node: the framework must see the user's own type)
+	leafExecEnter, leafExecLeave func(k int)
 	valueNodes map[int]*leafImpl // leaves implemented by value-type nodes
 	seenCtx    []context.Context
 }
@@ -363,6 +366,10 @@ func (l *leafImpl) exec(arg any) (any, error) {
 	v := rt.visit
 	rt.mu.Unlock()
 	e.record(fmt.Sprintf("e:%d:%d:%d:%s", l.rt.id, v, k, encVal(arg)))
+	if e.leafExecEnter != nil {
+		e.leafExecEnter(k)
+		defer e.leafExecLeave(k)
+	}
 	scr := e.leafScript(l.rt.id, v)
 	o := execOutcome(scr.Exec, k)
 	if o.cancels {
@@ -1000,6 +1007,9 @@ type ctxKey struct{}
 
 const runWatchdog = 10 * time.Second
 
+// panicMark: the "action" the runner goroutine reports when flyt.Run panicked
+const panicMark = flyt.Action("\x00panic\x00")
+
 // flowHangs counts runs of this process that hit the watchdog; after a few, the remaining runs are reported
 // as hangs without being started (a change that makes flyt hang must cost seconds, not hours)
 var flowHangs int32
@@ -1026,6 +1036,12 @@ func (e *runtimeEnv) runOnceVia(root int, via string) RunObs {
 	}
 	ch := make(chan res, 1)
 	go func() {
+		// a panic escaping from flyt.Run (no scripted callback panics) is an outcome of its own: "P"
+		defer func() {
+			if r := recover(); r != nil {
+				ch <- res{panicMark, nil}
+			}
+		}()
 		if e.onRunner != nil {
 			e.onRunner()
 		}
@@ -1041,10 +1057,13 @@ func (e *runtimeEnv) runOnceVia(root int, via string) RunObs {
 		a, err := flyt.Run(e.context(), e.nodes[root], e.runStore)
 		ch <- res{a, err}
 	}()
+	_ = panicMark
 	var out string
 	select {
 	case r := <-ch:
 		switch {
+		case r.a == panicMark:
+			out = "P"
 		case r.err == nil:
 			out = "A" + string(r.a)
 		case r.a == "":
